@@ -35,7 +35,7 @@ def scenarios_c11(quick, seed):
     for j in range(n):
         outs = [["val"], ["err"], ["nf"], ["val", "err"], ["val", "nf", "err"]][j % 5]
         out.append({"getters": j % 3, "bulk": (j // 3) % 2 if j % 4 == 0 else 0, "refreshers": 1 + (j // 2) % 3, "writers": [] if j % 4 else [["set"], ["invalidate"], ["compute"]][(j // 4) % 3],
-                    "preload": 1, "outcomes": outs, "policy": "random" if j % 2 else "pct", "seed": seed * 100000 + 50000 + j, "script": [], "refresh": 1, "bulkkeys": 2})
+                    "preload": 1, "outcomes": outs, "policy": "random" if j % 2 else "pct", "seed": seed * 100000 + 50000 + j, "script": [], "refresh": 1, "bulkkeys": 2, "hgate": 0})
     return out
 
 
@@ -54,7 +54,7 @@ def scenarios(prop, quick, seed):
             outs = outs + ["panic"]
         sc = {"getters": 1 + j % 3, "bulk": (j // 3) % 2, "refreshers": refreshers, "writers": kinds[j % len(kinds)],
               "preload": (j // 4) % 2 if refresh else 0, "outcomes": outs, "policy": "random" if j % 2 else "pct",
-              "seed": seed * 100000 + j, "script": [], "refresh": refresh, "bulkkeys": 2}
+              "seed": seed * 100000 + j, "script": [], "refresh": refresh, "bulkkeys": 2, "hgate": 0}
         fam = j % 8
         if fam in (1, 5):      # waiters joined to a failing / not-found / panicking bulk or single load
             sc.update(getters=2 + j % 2, bulk=1 if fam == 1 else 0, refreshers=0, refresh=0, preload=0, writers=[],
@@ -68,7 +68,15 @@ def scenarios(prop, quick, seed):
         elif fam == 7:         # BulkGet callers whose missing keys are all in flight elsewhere (they must wait for the joined loads)
             sc.update(getters=1 + j % 2, bulk=2, bulkkeys=1 + (j // 8) % 2, refreshers=0, refresh=0, preload=0, writers=[],
                       outcomes=[["val"], ["val", "nf"], ["val", "err"]][(j // 16) % 3])
-        if sc["writers"]:
+        if fam == 4 and (j // 8) % 4 == 0 and prop == "C09":
+            # F17 (open finding): the schedule TLC found on LoadRace.tla (NoWindowInstall) - a reload registered while an
+            # invalidation of the key is between clearing the in-flight record and publishing the removal; the user's
+            # atomic deletion handler runs exactly there and is the gate
+            sc.update(getters=0, bulk=0, refreshers=1, refresh=1, preload=1, outcomes=["val"], writers=["invalidate"], policy="script", hgate=1,
+                      script=[{"g": "w1", "at": "start"}, {"g": "w1", "at": "cp.lock"}, {"g": "r1", "at": "start"},
+                              {"g": "x1", "at": "ld.enter"}, {"g": "x1", "at": "ld.exit"}, {"g": "x1", "at": "ld.beforeInstall"},
+                              {"g": "x1", "at": "cp.lock"}, {"g": "w1", "at": "h.atomic"}])
+        elif sc["writers"]:
             # half of the racing scenarios are biased towards the two windows the properties name
             sc["policy"] += ["", "+inflight", "+atinstall", "+inflight"][(j // 8) % 4]
         out.append(sc)
